@@ -48,7 +48,8 @@ func (p *prop) Rule() string {
 	return "groups of per-shard partial results (values and ids drawn from tiny ranges so ties and shared extremes are frequent; " +
 		"empty shards included) folded in the listed arrival order; a case is non-trivial when it has >= 2 partial results; " +
 		"e2e lines run the real executor (one worker, chosen arrival order) on a dataset realising the partial results; " +
-		"cl lines run it on a real 2-3 node in-process cluster through every node as coordinator"
+		"cl lines run it on a real 2-3 node in-process cluster through every node as coordinator (TopN(n) lines: 5-8 shards, per-shard and total counts without ties); " +
+		"clf lines do so while one node answers every remote query with an error (map-reduce failover)"
 }
 
 func splitNE(s, sep string) []string {
@@ -112,6 +113,43 @@ func genRow(r *vh.Rng) string {
 // bigSingle: executor lines over more shards (failover lines: the failing node should own some).
 var bigSingle bool
 
+// genTopnShards: the full row counts of nShards shards over row ids 1..5. Inside a shard all counts
+// differ and over all shards all totals differ, so neither a per-shard top list nor the final
+// answer has a tie at its cut (the order and the selection among equal counts are unspecified).
+func genTopnShards(r *vh.Rng, nShards int) string {
+	for {
+		total := map[int]int{}
+		var items []string
+		for sh := 0; sh < nShards; sh++ {
+			perm := r.Perm(5)
+			var ps []string
+			for id := 1; id <= 5; id++ {
+				if r.Chance(7, 10) {
+					c := perm[id-1] + 1
+					ps = append(ps, fmt.Sprintf("%d:%d", id, c))
+					total[id] += c
+				}
+			}
+			if len(ps) == 0 {
+				items = append(items, "-")
+			} else {
+				items = append(items, strings.Join(ps, ","))
+			}
+		}
+		seen := map[int]bool{}
+		ok := true
+		for _, t := range total {
+			if seen[t] {
+				ok = false
+			}
+			seen[t] = true
+		}
+		if ok {
+			return strings.Join(items, ";")
+		}
+	}
+}
+
 func genGroups(r *vh.Rng, single bool, item func(*vh.Rng, int) string) (string, int) {
 	ng := r.Range(1, 3)
 	if single {
@@ -152,9 +190,9 @@ func (p *prop) Gen(r *vh.Rng, tier string, n int) []vh.Case {
 		// Lines that run the real executor cost ~0.1-0.2 s each (index + fragments on disk), a
 		// reducer-level line costs microseconds: the quick tier keeps the former to a few dozen per
 		// stream and cluster lines to a handful; the thorough tier runs many more of both.
-		e2eDen, clDen, clfDen := 20, 250, 150
+		e2eDen, clDen, clfDen := 12, 60, 60
 		if tier == "thorough" {
-			e2eDen, clDen, clfDen = 15, 60, 60
+			e2eDen, clDen, clfDen = 12, 40, 40
 		}
 		mode := ""
 		switch {
@@ -174,7 +212,10 @@ func (p *prop) Gen(r *vh.Rng, tier string, n int) []vh.Case {
 		// lines always run the real executor: they are only generated in the executor modes
 		op := cr.Pick(0, 0, 0, 2, 2, 3, 3, 3, 3, 4, 4, 4, 4, 5, 5, 5, 6, 6, 6, 6, 6)
 		if real {
-			op = cr.Pick(0, 0, 1, 1, 1, 2, 3, 3, 4, 4, 5, 5, 6, 6, 6, 7)
+			op = cr.Pick(0, 0, 1, 1, 1, 2, 3, 3, 4, 4, 5, 5, 6, 6, 6, 7, 8, 8)
+			if mode == "cl" && cr.Chance(1, 3) {
+				op = 8 // TopN(n) needs a cluster to show a dependence on the grouping
+			}
 		}
 		switch op {
 		case 0:
@@ -241,6 +282,13 @@ func (p *prop) Gen(r *vh.Rng, tier string, n int) []vh.Case {
 				g, total = genGroups(cr, false, func(r *vh.Rng, _ int) string { return genRow(r) })
 				line = "rows " + g
 			}
+		case 8:
+			nsh := cr.Range(2, 4)
+			if mode == "cl" || mode == "clf" {
+				nsh = cr.Range(5, 8) // more shards than nodes: a node owns several
+			}
+			total = nsh
+			line = fmt.Sprintf("topn %d %s", cr.Range(1, 3), genTopnShards(cr, nsh))
 		case 7:
 			if mode == "cl" || mode == "clf" {
 				mode = "e2e" // ClearRow is a write: one coordinator only
@@ -329,6 +377,22 @@ func showPairs(ps []pilosa.Pair) string {
 	}
 	return strings.Join(ss, " ")
 }
+// showPairsRanked prints a TopN(n) answer in count order (ties by ascending id, like the model).
+func showPairsRanked(ps []pilosa.Pair) string {
+	ps = append([]pilosa.Pair(nil), ps...)
+	sort.SliceStable(ps, func(i, j int) bool {
+		if ps[i].Count != ps[j].Count {
+			return ps[i].Count > ps[j].Count
+		}
+		return ps[i].ID < ps[j].ID
+	})
+	ss := make([]string, len(ps))
+	for i, p := range ps {
+		ss[i] = showPair(p)
+	}
+	return strings.Join(ss, " ")
+}
+
 func showGCs(gs []pilosa.GroupCount) string {
 	ss := make([]string, len(gs))
 	for i, g := range gs {
@@ -512,6 +576,12 @@ func (p *prop) execLine(l string) string {
 			return "0:0"
 		}
 		return p.execE2E([]string{"pair", ws[1], strings.Join(flat, ";")}, p.single())
+	case ws[0] == "topn" && len(ws) == 3:
+		flat := flattenGroups(ws[2])
+		if len(flat) == 0 {
+			return ""
+		}
+		return p.execE2E([]string{"topn", ws[1], strings.Join(flat, ";")}, p.single())
 	case ws[0] == "bool" && len(ws) == 2:
 		flat := flattenGroups(ws[1])
 		if len(flat) == 0 {
@@ -932,6 +1002,34 @@ func (p *prop) execE2EOnce(ws []string, be backend) (out string) {
 			return "err:recalculate"
 		}
 		return ask("TopN(f)", order, func(res []interface{}) string { return showPairs(res[0].([]pilosa.Pair)) })
+	case "topn":
+		// every item is the full list id:count of one shard; TopN(f, n=N) runs the two-pass protocol
+		if len(ws) != 3 {
+			return "bad-op"
+		}
+		if _, err := strconv.ParseUint(ws[1], 10, 32); err != nil {
+			return "bad-op"
+		}
+		if !mkField("f", pilosa.OptFieldTypeSet("ranked", 100)) {
+			return "err:create-field"
+		}
+		for j, it := range items {
+			k := 0
+			for _, ps := range splitNE(it, ",") {
+				pr := parsePair(ps)
+				for c := 0; c < int(pr.Count); c++ {
+					sets = append(sets, fmt.Sprintf("Set(%d, f=%d)", order[j]*sw+uint64(k), pr.ID))
+					k++
+				}
+			}
+		}
+		load()
+		if err := be.Recalc(); err != nil {
+			return "err:recalculate"
+		}
+		return ask(fmt.Sprintf("TopN(f, n=%s)", ws[1]), order, func(res []interface{}) string {
+			return showPairsRanked(res[0].([]pilosa.Pair))
+		})
 	case "rows", "rowsu":
 		// one single-segment row per listed shard: `shard:c,c`; the arrival order is the listed one
 		if !mkField("f", pilosa.OptFieldTypeSet("ranked", 100)) {
